@@ -399,6 +399,26 @@ def std_transfer(I, fr, t, c, pth):
             fr.storev(dest, Int(int(not v.items), 1))
             return True
         return False
+    if name == 'split_at' and res.startswith('core::slice::<impl [T]>::split_at') and len(args) == 2:
+        v = seq_of(I, fr, args[0])
+        k = as_int(fr.operand(args[1]))
+        if isinstance(v, Agg) and k is not None and k <= len(v.items):
+            fr.storev(dest, Agg([Agg(v.items[:k]), Agg(v.items[k:])]))
+            return True
+        return False
+    if name == 'split_at_mut' and res.startswith('core::slice::<impl [T]>::split_at_mut') and len(args) == 2:
+        rp = ref_of(fr, args[0])
+        k = as_int(fr.operand(args[1]))
+        if rp is not None and k is not None:
+            arr = fr._project(fr.store.get(rp[0], TOP), [e for e in rp[1] if e[0] != 'off'])
+            if isinstance(arr, Agg):
+                lo = sum(e[1] for e in rp[1] if e[0] == 'off')
+                base = [e for e in rp[1] if e[0] != 'off']
+                n_ = len(arr.items) - lo
+                if k <= n_:
+                    fr.storev(dest, Agg([Ref(rp[0], base + [['off', lo, k]]), Ref(rp[0], base + [['off', lo + k, n_ - k]])]))
+                    return True
+        return False
     if name == 'to_vec' and res.startswith('std::slice::<impl [T]>::to_vec'):
         v = seq_of(I, fr, args[0])
         if isinstance(v, Agg):
